@@ -262,7 +262,7 @@ Lemma repetition_filter_in g ms m : In m (repetition_filter g ms) -> In m ms.
 Proof.
   unfold repetition_filter.
   destruct (g_moves g) as [|m1 [|m2 [|m3 [|m4 [|m5 t]]]]]; try tauto.
-  destruct (move_eqb m1 m5); [apply swap_remove_move_in | tauto].
+  destruct (move_eqb m1 m5 && is_reversal m4 m2 && is_reversal m5 m3); [apply swap_remove_move_in | tauto].
 Qed.
 
 (* ---- no OutOfFuel ------------------------------------------------------------------------------------------- *)
